@@ -7,6 +7,8 @@ import (
 	"runtime"
 	"runtime/debug"
 	"strconv"
+	"strings"
+	"sync"
 
 	"verifharness/internal/iso"
 
@@ -96,6 +98,60 @@ func hsmsWorker(w *iso.Worker) {
 	}()
 	for i, j := range w.Jobs {
 		w.Begin(i)
+		if j.Family == "concurrent-batch" {
+			// frames (each with its 4-byte length, concatenated) decoded at the same moment from as many goroutines: every
+			// call returns normally and what it returns alone; the hooks are single-goroutine and switched off meanwhile
+			var frames [][]byte
+			for rest := j.Input; len(rest) >= 4; {
+				n := 4 + int(rest[0])<<24 + int(rest[1])<<16 + int(rest[2])<<8 + int(rest[3])
+				if n > len(rest) {
+					n = len(rest)
+				}
+				frames = append(frames, rest[:n:n])
+				rest = rest[n:]
+			}
+			ast.VerifCountListWalks = false
+			hook := hsms.VerifHook
+			hsms.VerifHook = nil
+			summ := func(b []byte) (out string) {
+				defer func() {
+					if r := recover(); r != nil {
+						out = "panic: " + fmt.Sprint(r)
+					}
+				}()
+				m, ok := hsms.Parse(b)
+				if !ok {
+					return "not ok"
+				}
+				return m.Type() + " " + string(m.ToBytes())
+			}
+			together := make([]string, len(frames))
+			var wg sync.WaitGroup
+			start := make(chan struct{})
+			for k := range frames {
+				wg.Add(1)
+				go func(k int) {
+					defer wg.Done()
+					<-start
+					for rep := 0; rep < 50; rep++ {
+						together[k] = summ(frames[k])
+					}
+				}(k)
+			}
+			close(start)
+			wg.Wait()
+			for k := range frames {
+				if alone := summ(frames[k]); alone != together[k] || strings.HasPrefix(alone, "panic: ") {
+					w.Report(iso.Finding{Index: i, Sig: "C07/result-differs-when-other-calls-are-in-flight", What: fmt.Sprintf("frame %x decoded while %d other Parse calls were running gave %.80q, alone it gives %.80q", clipB(frames[k]), len(frames)-1, together[k], alone), Family: j.Family})
+					break
+				}
+			}
+			hsms.VerifHook = hook
+			ast.VerifCountListWalks = true
+			w.Classes["family/"+j.Family]++
+			w.End(i)
+			continue
+		}
 		in := j.Input
 		if len(in) > maxIn {
 			maxIn = len(in)
